@@ -154,7 +154,7 @@ func (g *gen) locRead(st State, l *Loc) string {
 
 func (g *gen) accessor(structSort string, field int) string {
 	st := g.ctx.structOf[structSort]
-	return structSort + ".." + sanitize(st.Field(field).Name())
+	return structSort + ".." + fieldName(st, field)
 }
 
 func (g *gen) updatePath(base string, path []pathStep, v string) string {
